@@ -150,3 +150,58 @@ Theorem C09_node_at_located : forall s fuel n pos c,
             (node_is_text c = false -> p = pos) /\ (node_is_text c = true -> pos = p \/ pos < p + node_size s c).
 Proof. exact node_at_located. Qed.
 Print Assumptions C09_node_at_located.
+
+(* Node.child_after(pos) / child_before(pos) = (child, index, offset): the child is child number index, its tokens start
+   at token index offset of the node's content, and pos lies at the child's start or inside it (child_after) / inside
+   it or at its end (child_before) *)
+Theorem C09_child_after_located : forall s n pos c index offset,
+  child_after s n pos = Ok (Some c, index, offset) ->
+  nth_error (node_content n) index = Some c /\ At s (ftoks s (node_content n)) offset c /\
+  (offset = pos \/ offset < pos < offset + node_size s c).
+Proof. exact child_after_located. Qed.
+Print Assumptions C09_child_after_located.
+
+Theorem C09_child_before_located : forall s n pos c index offset,
+  child_before s n pos = Ok (Some c, index, offset) ->
+  nth_error (node_content n) index = Some c /\ At s (ftoks s (node_content n)) offset c /\
+  offset <= pos /\ pos <= offset + node_size s c.
+Proof. exact child_before_located. Qed.
+Print Assumptions C09_child_before_located.
+
+(* ResolvedPos.shared_depth(pos) is the deepest ancestor level whose content span [start, end] contains pos: it does, and no
+   deeper level does (combined with C09_ancestor_accessors, which ties start / end to the ancestor's tokens) *)
+Theorem C09_shared_depth_is_deepest_common_level : forall s r p k,
+  shared_depth s r p = Ok k ->
+  k <= rp_depth r /\
+  (k = 0 \/ exists st en, rp_start r k = Ok st /\ rp_end s r k = Ok en /\ st <= p <= en) /\
+  forall j, k < j -> j <= rp_depth r -> forall st en, rp_start r j = Ok st -> rp_end s r j = Ok en -> ~ (st <= p <= en).
+Proof. intros s r p k H. exact (shared_depth_go_spec s r p (rp_depth r) k H). Qed.
+Print Assumptions C09_shared_depth_is_deepest_common_level.
+
+(* ResolvedPos.block_range(other): with a the earlier and b the later of the two positions, the range's depth is the deepest
+   level - starting at a's depth, one less when a's parent has inline content or the two positions coincide - whose node
+   ends at or after b; no deeper such level exists; None when even the start level is above the root *)
+Theorem C09_block_range_depth : forall s r o k,
+  rp_block_range s r o = Ok (Some k) ->
+  let a := if rp_pos o <? rp_pos r then o else r in let b := if rp_pos o <? rp_pos r then r else o in
+  exists parent dec,
+    rp_parent a = Ok parent /\
+    dec = (if nt_inline_content (ntype_of s (node_ty s parent)) then 1 else if rp_pos a =? rp_pos b then 1 else 0) /\
+    dec <= rp_depth a /\ k <= rp_depth a - dec /\
+    (exists en, rp_end s a k = Ok en /\ rp_pos b <= en) /\
+    forall j, k < j -> j <= rp_depth a - dec -> forall en, rp_end s a j = Ok en -> en < rp_pos b.
+Proof.
+  intros s r o k H. cbv zeta. unfold rp_block_range in H.
+  destruct (rp_pos o <? rp_pos r).
+  - destruct (rp_parent o) as [parent|] eqn:Ep; [|discriminate]. cbn [bind] in H.
+    set (dec := if nt_inline_content (ntype_of s (node_ty s parent)) then 1 else if rp_pos o =? rp_pos r then 1 else 0) in *.
+    destruct (rp_depth o <? dec) eqn:Ed; [discriminate|]. apply Nat.ltb_ge in Ed.
+    destruct (block_range_go_spec s o (rp_pos r) _ _ H) as (H1 & H2 & H3).
+    exists parent, dec. repeat split; auto.
+  - destruct (rp_parent r) as [parent|] eqn:Ep; [|discriminate]. cbn [bind] in H.
+    set (dec := if nt_inline_content (ntype_of s (node_ty s parent)) then 1 else if rp_pos r =? rp_pos o then 1 else 0) in *.
+    destruct (rp_depth r <? dec) eqn:Ed; [discriminate|]. apply Nat.ltb_ge in Ed.
+    destruct (block_range_go_spec s r (rp_pos o) _ _ H) as (H1 & H2 & H3).
+    exists parent, dec. repeat split; auto.
+Qed.
+Print Assumptions C09_block_range_depth.
